@@ -16,10 +16,13 @@ import (
 	"sync"
 
 	corev1 "k8s.io/api/core/v1"
+	"k8s.io/client-go/kubernetes"
 	"k8s.io/client-go/kubernetes/fake"
 	"tkestack.io/galaxy/pkg/galaxy"
 	"tkestack.io/galaxy/pkg/galaxy/options"
 	"tkestack.io/galaxy/pkg/network/portmapping"
+	"tkestack.io/galaxy/pkg/policy"
+	utiliptables "tkestack.io/galaxy/pkg/utils/iptables"
 	"verif/harness/fakes"
 )
 
@@ -269,6 +272,13 @@ type daemon struct {
 const kubeletCNIPath = "/opt/cni/bin"
 
 func newDaemon(env *runEnv, cfg *staticConf, tag string) (*daemon, error) {
+	return newDaemonPM(env, cfg, tag, nil)
+}
+
+// newDaemonPM: mk (concurrent phase only) may supply the iptables handle of the port mapping handler and a real
+// PolicyManager built over the daemon's kube client; nil keeps the daemon of the sequential phases (pm == nil).
+func newDaemonPM(env *runEnv, cfg *staticConf, tag string,
+	mk func(kube kubernetes.Interface) (utiliptables.Interface, *policy.PolicyManager)) (*daemon, error) {
 	confDir := filepath.Join(env.dir, "conf-"+tag)
 	if err := os.MkdirAll(confDir, 0755); err != nil {
 		return nil, err
@@ -298,7 +308,22 @@ func newDaemon(env *runEnv, cfg *staticConf, tag string) (*daemon, error) {
 	pmh := portmapping.New("")
 	pmh.Interface = fakes.NewIPTables(nil)
 	kube := fake.NewSimpleClientset()
-	g, err := galaxy.VerifNew(jc, opts, kube, pmh, nil)
+	var pm *policy.PolicyManager
+	if mk != nil {
+		var ipt utiliptables.Interface
+		ipt, pm = mk(kube)
+		if ipt != nil {
+			pmh.Interface = ipt
+		}
+		// what Galaxy.setupIPtables does at start (no pods yet): full port-mapping sync, then the basic rules
+		if err := pmh.SetupPortMappingForAllPods(nil); err != nil {
+			return nil, fmt.Errorf("SetupPortMappingForAllPods at start: %v", err)
+		}
+		if err := pmh.EnsureBasicRule(); err != nil {
+			return nil, fmt.Errorf("EnsureBasicRule at start: %v", err)
+		}
+	}
+	g, err := galaxy.VerifNew(jc, opts, kube, pmh, pm)
 	if err != nil {
 		return nil, fmt.Errorf("VerifNew: %v", err)
 	}
